@@ -43,13 +43,13 @@ pub fn main() {
         }
         let case_seed = mix(mix(seed, str_hash(prop.id)), ci);
         let mut rng = Rng::new(case_seed);
-        let base = (prop.gen)(&mut rng, false);
+        let base = crate::explore::gen_case(prop, &mut rng, false);
         if comp_only && base.comp.is_none() {
             continue;
         }
         done += 1;
         // Under Miri only the first variant of differential properties is executed.
-        let Some(case) = (prop.variants)(&base, false).into_iter().next() else { continue };
+        let Some(case) = crate::explore::gen_variants(prop, &base, false).into_iter().next() else { continue };
         let case = Arc::new(case);
         let ctx = ExecCtx::new(case.nodes.len());
         let (c2, x2) = (case.clone(), ctx.clone());
